@@ -446,4 +446,32 @@ def handleMessage (cid : Option String) (msg : Option JVal) : M Unit := do
           if !waiting then sendReply cid mid cast "ok" "-" "-"
     | _ => sendReply cid mid cast "error" "2" "-"
 
+/-- `SysHandler._quit`: a termination signal waits for a running exclusive command -/
+def sigQuit : M Unit := do
+  let a ← getA
+  if a.slot.isSome && !a.stopping then
+    let fid ← newFrame .pass (.callback "sigquit")
+    armFrame fid
+    addSleeper 100 (.frame fid 0)
+  else handleMessage none (some (.obj [("command", .str "quit"), ("properties", .obj [])]))
+
+/-- one entry of the ready queue -/
+def runReady1 (rec : Rec) : Ready → M Unit
+  | .resume k v w => rec (.resume k v w)
+  | .topCb cb v => runTopCb v cb
+  | .closeCtl => stopController
+  | .callback _ => sigQuit
+
+/-- run the event loop until its ready queue is empty (`settle`) -/
+def settle : Nat → M Unit
+  | 0 => emit .outOfFuel
+  | fuel + 1 => fun s =>
+    if s.blocked then ((), s) else
+    match s.ready with
+    | [] => ((), s)
+    | r :: rest =>
+      let s1 := { s with ready := rest }
+      let (_, s2) := runReady1 (exec 100000) r s1
+      settle fuel s2
+
 end Circus.Core
